@@ -20,6 +20,8 @@ func init() {
 		ringTypeRule(c, "C14/RING-TYPE", []string{"pkg/rtpreceiver", "pkg/rtpreorderer", "pkg/rtplossdetector"}, 1)
 		perPacketRule(c, "C14/PER-PACKET", []string{"pkg/rtpreceiver", "pkg/rtpreorderer", "pkg/rtplossdetector"}, 1)
 		c14ConsecutiveCounter(c, "C14/CONSECUTIVE-COUNTER")
+		c14RestartClears(c, "C14/RESTART-CLEARS")
+		c14WrapPair(c, "C14/WRAP-PAIR")
 	}
 	Registry["C15"] = func(c *Ctx) {
 		c.R.NotDecided = append(c.R.NotDecided, "numerical exactness of the PTS / NTP mapping; placement of late tracks on the leading track's timeline (value level)")
@@ -236,6 +238,10 @@ func c14RingIndex(c *Ctx, rule string) {
 		construct := fnShort(acc.Fn) + " stores absPos"
 		if isMasked(st.Val) {
 			r.OK(rule, construct+" (masked)", p.Pos(st.Pos()), "masked value")
+			continue
+		}
+		if isZeroConst(st.Val) {
+			r.OK(rule, construct+" (zero)", p.Pos(st.Pos()), "slot 0 exists in every ring")
 			continue
 		}
 		// next store to absPos in the same block must be masked, with no buffer access in between
@@ -779,5 +785,285 @@ func anchorTupleFolded(c *Ctx, typ string, old []string, f *types.Var, why strin
 	}
 	if len(keys) == 0 {
 		r.Fail("C15/ANCHOR-TUPLE", typ+" tuple stores", "", "none found (the tuple was folded into "+f.Name()+")")
+	}
+}
+
+// c14RestartClears (added after seeded change C14-r4m1): where the consecutive counter trips (the
+// sender is taken to have restarted and the arriving packet is delivered as the start of a new
+// stream), the ring is emptied before the function returns: a packet of the old stream left in a
+// slot would later be released into the new stream.
+func c14RestartClears(c *Ctx, rule string) {
+	p, r := c.P, c.R
+	r.Rule(rule, "on the edge where the receiver's consecutive-late counter trips (sender restart), every slot of the reorder ring is emptied before the function returns (a counting loop over len(buffer) slots storing nil, clear(buffer), or a fresh buffer): a packet of the old stream left behind would be released into the new one", 1)
+	st, ok := p.Named("pkg/rtpreceiver", "Receiver").Underlying().(*types.Struct)
+	if !ok {
+		return
+	}
+	var bufF *types.Var
+	for i := 0; i < st.NumFields(); i++ {
+		f := st.Field(i)
+		if sl, ok := f.Type().Underlying().(*types.Slice); ok {
+			if _, isPtr := sl.Elem().Underlying().(*types.Pointer); isPtr {
+				bufF = f
+			}
+		}
+	}
+	if !r.Anchor(rule, "Receiver ring field ([]*rtp.Packet)", bufF != nil) {
+		return
+	}
+	n := 0
+	for i := 0; i < st.NumFields(); i++ {
+		f := st.Field(i)
+		if !isIntField(f) {
+			continue
+		}
+		for _, acc := range p.FieldAccesses(f) {
+			zs, ok := acc.Instr.(*ssa.Store)
+			if !ok || zs.Addr != ssa.Value(acc.Addr) || !isZeroConst(zs.Val) {
+				continue
+			}
+			// the zero store sits under the passing edge of a threshold test of the same counter
+			tripped := false
+			for _, cd := range core.Conds(zs.Block()) {
+				bo, ok := cd.V.(*ssa.BinOp)
+				if !ok {
+					continue
+				}
+				switch bo.Op {
+				case token.GTR, token.GEQ, token.LSS, token.LEQ:
+				default:
+					continue
+				}
+				for _, side := range []ssa.Value{bo.X, bo.Y} {
+					if u, ok := stripConv(side).(*ssa.UnOp); ok {
+						if fa, ok := u.X.(*ssa.FieldAddr); ok && core.FieldOfAddr(fa) == f {
+							tripped = true
+						}
+					}
+				}
+			}
+			if !tripped {
+				continue
+			}
+			// only counters that are also incremented in this function
+			inc := false
+			for _, a2 := range p.FieldAccesses(f) {
+				if s2, ok := a2.Instr.(*ssa.Store); ok && a2.Fn == acc.Fn && s2.Addr == ssa.Value(a2.Addr) {
+					if bo, ok := s2.Val.(*ssa.BinOp); ok && bo.Op == token.ADD && constIs(bo.Y, 1) {
+						inc = true
+					}
+				}
+			}
+			if !inc {
+				continue
+			}
+			n++
+			fn := acc.Fn
+			construct := fmt.Sprintf("%s restart edge of %s", fnShort(fn), f.Name())
+			discards := func(x ssa.Instruction) bool {
+				switch y := x.(type) {
+				case *ssa.Call:
+					if bi, ok := y.Call.Value.(*ssa.Builtin); ok && bi.Name() == "clear" && strings.HasSuffix(core.PathOf(y.Call.Args[0]), "."+bufF.Name()) {
+						return true
+					}
+				case *ssa.Store:
+					if fa, ok := y.Addr.(*ssa.FieldAddr); ok && core.FieldOfAddr(fa) == bufF {
+						if _, fresh := y.Val.(*ssa.MakeSlice); fresh {
+							return true
+						}
+					}
+					ia, ok := y.Addr.(*ssa.IndexAddr)
+					if !ok || !isNilConst(y.Val) || !strings.HasSuffix(core.PathOf(ia.X), "."+bufF.Name()) {
+						return false
+					}
+					return fullRingLoop(y, ia, bufF) != nil
+				}
+				return false
+			}
+			// a counting loop may look skippable to a path query: passing its condition block counts as running it
+			loopHeads := map[*ssa.BasicBlock]bool{}
+			for _, b := range fn.Blocks {
+				for _, in := range b.Instrs {
+					if y, ok := in.(*ssa.Store); ok {
+						if ia, ok := y.Addr.(*ssa.IndexAddr); ok && isNilConst(y.Val) && strings.HasSuffix(core.PathOf(ia.X), "."+bufF.Name()) {
+							if hb := fullRingLoop(y, ia, bufF); hb != nil {
+								loopHeads[hb] = true
+							}
+						}
+					}
+				}
+			}
+			discards0 := discards
+			discards = func(x ssa.Instruction) bool { return loopHeads[x.Block()] || discards0(x) }
+			miss, path, _ := core.PathAvoiding(fn, zs, core.IsReturn, discards)
+			if miss {
+				r.FailPath(rule, construct, p.Pos(zs.Pos()), "the restart is acknowledged and the function returns without emptying the ring: packets of the old stream stay in their slots and are later released into the new stream", core.BlockPath(p, fn, path))
+			} else {
+				r.OK(rule, construct, p.Pos(zs.Pos()), "every path from the restart to the return empties the whole ring")
+			}
+		}
+	}
+	if n == 0 {
+		r.Fail(rule, "restart edge", "", "none found: the anchor (negativeCount threshold in Receiver.reorder) moved")
+	}
+}
+
+// fullRingLoop: the nil store st into buffer[idx] sits in a loop whose counter starts at 0, advances by 1 and is
+// bounded by len(buffer), and idx is the counter or (x + counter) & (len(buffer)-1) (a bijection of the slots).
+func fullRingLoop(st *ssa.Store, ia *ssa.IndexAddr, bufF *types.Var) *ssa.BasicBlock {
+	var counter *ssa.Phi
+	var head *ssa.BasicBlock
+	for _, cd := range core.Conds(st.Block()) {
+		bo, ok := cd.V.(*ssa.BinOp)
+		if !ok || !cd.Pol || bo.Op != token.LSS {
+			continue
+		}
+		if !strings.HasSuffix(core.PathOf(stripConv(bo.Y)), "."+bufF.Name()+")") {
+			continue
+		}
+		lhs := stripConv(bo.X)
+		if ph, ok := lhs.(*ssa.Phi); ok {
+			counter, head = ph, bo.Block()
+		} else if a, ok := lhs.(*ssa.BinOp); ok && a.Op == token.ADD && constIs(a.Y, 1) {
+			if ph, ok := a.X.(*ssa.Phi); ok {
+				counter, head = ph, bo.Block()
+			}
+		}
+	}
+	if counter == nil {
+		return nil
+	}
+	start, step := false, false
+	for _, e := range counter.Edges {
+		if k, ok := e.(*ssa.Const); ok && k.Value != nil && (k.Value.String() == "0" || k.Value.String() == "-1") {
+			start = true
+		}
+		if bo, ok := e.(*ssa.BinOp); ok && bo.Op == token.ADD && bo.X == ssa.Value(counter) && constIs(bo.Y, 1) {
+			step = true
+		}
+	}
+	if !start || !step {
+		return nil
+	}
+	// the index depends on the counter through +, & and conversions only
+	var dep func(v ssa.Value, d int) bool
+	dep = func(v ssa.Value, d int) bool {
+		if d > 8 {
+			return false
+		}
+		v = stripConv(v)
+		if v == ssa.Value(counter) {
+			return true
+		}
+		if bo, ok := v.(*ssa.BinOp); ok && (bo.Op == token.ADD || bo.Op == token.AND) {
+			return dep(bo.X, d+1) || dep(bo.Y, d+1)
+		}
+		return false
+	}
+	if dep(ia.Index, 0) {
+		return head
+	}
+	return nil
+}
+
+// c14WrapPair (added after seeded change C14-r4m2): the packet whose sequence number is compared with the
+// last one to detect a wrap of the 16-bit counter is the packet whose sequence number then becomes the last one.
+// Comparing one element of a released batch and recording another misses a wrap that falls inside the batch
+// (the extended highest sequence number of every later report is 65536 too small).
+func c14WrapPair(c *Ctx, rule string) {
+	p, r := c.P, c.R
+	r.Rule(rule, "where the receiver counts sequence-number cycles, the packet whose sequence number is compared with the recorded last one is the packet whose sequence number is recorded next: every store to the last-sequence-number field that follows a cycle test takes its value from the same packet value the test read", 1)
+	st, ok := p.Named("pkg/rtpreceiver", "Receiver").Underlying().(*types.Struct)
+	if !ok {
+		return
+	}
+	n := 0
+	for i := 0; i < st.NumFields(); i++ {
+		cyc := st.Field(i)
+		if !isIntField(cyc) {
+			continue
+		}
+		for _, acc := range p.FieldAccesses(cyc) {
+			inc, ok := acc.Instr.(*ssa.Store)
+			if !ok || inc.Addr != ssa.Value(acc.Addr) {
+				continue
+			}
+			bo, ok := inc.Val.(*ssa.BinOp)
+			if !ok || bo.Op != token.ADD || !constIs(bo.Y, 1) {
+				continue
+			}
+			// the test guarding the increment: a comparison of a difference  conv(P.SequenceNumber) - conv(rr.last)
+			fn := acc.Fn
+			for _, cd := range core.Conds(inc.Block()) {
+				cmp, ok := cd.V.(*ssa.BinOp)
+				if !ok {
+					continue
+				}
+				diff, ok := stripConv(cmp.X).(*ssa.BinOp)
+				if !ok || diff.Op != token.SUB {
+					continue
+				}
+				pktOf := func(v ssa.Value) (ssa.Value, *types.Var) {
+					u, ok := stripConv(v).(*ssa.UnOp)
+					if !ok {
+						return nil, nil
+					}
+					fa, ok := u.X.(*ssa.FieldAddr)
+					if !ok {
+						return nil, nil
+					}
+					base := fa.X
+					for {
+						inner, ok := base.(*ssa.FieldAddr)
+						if !ok {
+							break
+						}
+						base = inner.X
+					}
+					return base, core.FieldOfAddr(fa)
+				}
+				px, fx := pktOf(diff.X)
+				py, fy := pktOf(diff.Y)
+				if fx == nil || fy == nil {
+					continue
+				}
+				// one side is a field of the receiver (the recorded last), the other a field of a packet
+				var pkt ssa.Value
+				var lastF *types.Var
+				if core.NamedOf(core.Deref(py.Type())) == core.ModPath+"/pkg/rtpreceiver.Receiver" {
+					pkt, lastF = px, fy
+				} else if core.NamedOf(core.Deref(px.Type())) == core.ModPath+"/pkg/rtpreceiver.Receiver" {
+					pkt, lastF = py, fx
+				} else {
+					continue
+				}
+				n++
+				construct := fmt.Sprintf("%s cycle test on %s", fnShort(fn), lastF.Name())
+				// every store to lastF reachable from the test takes its value from a field of the same packet value
+				bad := ""
+				for _, a2 := range p.FieldAccesses(lastF) {
+					s2, ok := a2.Instr.(*ssa.Store)
+					if !ok || a2.Fn != fn || s2.Addr != ssa.Value(a2.Addr) {
+						continue
+					}
+					reach, _, _ := core.PathAvoiding(fn, cmp, func(x ssa.Instruction) bool { return x == ssa.Instruction(s2) }, nil)
+					if !reach {
+						continue
+					}
+					src, _ := pktOf(s2.Val)
+					if src != pkt {
+						bad = p.Pos(s2.Pos())
+					}
+				}
+				if bad != "" {
+					r.Fail(rule, construct, bad, "the sequence number recorded as the last one comes from another packet than the one the cycle test compared: a wrap between the two is not counted")
+				} else {
+					r.OK(rule, construct, p.Pos(cmp.Pos()), "test and record use the same packet")
+				}
+			}
+		}
+	}
+	if n == 0 {
+		r.Fail(rule, "cycle test", "", "no cycle test of the form seq(packet) - last found guarding a counter increment: the anchor (sequenceNumberCycles in ProcessPacket2) moved")
 	}
 }
